@@ -2,7 +2,7 @@ from .props import HDR, standard
 
 
 def run(ctx):
-    n_sdk = {"quick": 400, "thorough": 3000}[ctx.tier]
+    n_sdk = {"quick": 400, "thorough": 2000}[ctx.tier]
     n_ks = {"quick": 300, "thorough": 4000}[ctx.tier]
     hdr = HDR.format(imports="lib.TokSplit model.C07_model model.C07_run")
 
